@@ -322,11 +322,217 @@ Proof.
   apply fib_model_spec; [exact Hwf1|exact Hb].
 Qed.
 
+(* ---------------------------------------------------------------- chains (round 3) *)
+Lemma wf_fib_none_nil : wf_fib None [] = true.
+Proof. reflexivity. Qed.
+
+Lemma wf_fib_fadd sa a sc c :
+  wf_fib sa a = true -> wf_fib sc c = true -> within sa c = true -> wf_fib sa (fadd a c) = true.
+Proof.
+  intros Ha Hc Hw. destruct (wf_fib_parts _ _ Ha) as (Hsa & H0a & Hna).
+  destruct (wf_fib_parts _ _ Hc) as (Hsc & H0c & _).
+  assert (Hin : forall x, In x (coordsP (fadd a c)) -> In x (coordsP a) \/ In x (coordsP c)).
+  { intros x Hx. apply fadd_In in Hx. destruct Hx as [Hx|Hx]; apply coordsP_nonempty_incl in Hx; auto. }
+  apply wf_fib_intro.
+  - apply fadd_sorted; assumption.
+  - intros x Hx. destruct (Hin x Hx); auto.
+  - intros n E. destruct (Hna n E) as [Hn Hlt]. split; [exact Hn|].
+    intros x Hx. destruct (Hin x Hx) as [H|H]; [auto|exact (within_coords sa c n Hw E x H)].
+Qed.
+
+Lemma wf_fib_fmul sa a sc c :
+  wf_fib sa a = true -> wf_fib sc c = true -> wf_fib sa (fmul a c) = true.
+Proof.
+  intros Ha Hc. destruct (wf_fib_parts _ _ Ha) as (Hsa & H0a & Hna).
+  destruct (wf_fib_parts _ _ Hc) as (Hsc & _ & _).
+  assert (Hin : forall x, In x (coordsP (fmul a c)) -> In x (coordsP a)).
+  { intros x Hx. apply fmul_In in Hx; [|assumption|assumption].
+    destruct Hx as [Hx _]. apply coordsP_nonempty_incl. exact Hx. }
+  apply wf_fib_intro.
+  - apply fmul_sorted; assumption.
+  - intros x Hx. auto.
+  - intros n E. destruct (Hna n E) as [Hn Hlt]. split; [exact Hn|]. intros x Hx. auto.
+Qed.
+
+Lemma wf_fib_fadd_scalar sa a k : wf_fib sa a = true -> wf_fib sa (fadd_scalar sa a k) = true.
+Proof.
+  intros Ha. destruct (wf_fib_parts _ _ Ha) as (Hsa & H0a & Hna).
+  apply wf_fib_intro.
+  - unfold sortedP. rewrite fadd_scalar_coords. apply zrange_sorted.
+  - intros x Hx. rewrite fadd_scalar_coords in Hx. apply zrange_In in Hx. lia.
+  - intros n E. destruct (Hna n E) as [Hn Hlt]. split; [exact Hn|].
+    intros x Hx. rewrite fadd_scalar_coords in Hx. apply zrange_In in Hx. subst sa. cbn [eff_shape] in Hx. lia.
+Qed.
+
+Lemma wf_fib_fmul_scalar sa a k : wf_fib sa a = true -> wf_fib sa (fmul_scalar a k) = true.
+Proof.
+  intros Ha. destruct (wf_fib_parts _ _ Ha) as (Hsa & H0a & Hna).
+  apply wf_fib_intro.
+  - unfold sortedP. rewrite fmul_scalar_coords. apply sortedP_nonempty. exact Hsa.
+  - intros x Hx. rewrite fmul_scalar_coords in Hx. apply coordsP_nonempty_incl in Hx. auto.
+  - intros n E. destruct (Hna n E) as [Hn Hlt]. split; [exact Hn|].
+    intros x Hx. rewrite fmul_scalar_coords in Hx. apply coordsP_nonempty_incl in Hx. auto.
+Qed.
+
+Lemma wf_fib_fiadd_scalar sa a k : wf_fib sa a = true -> wf_fib sa (fiadd_scalar sa a k) = true.
+Proof.
+  intros Ha. destruct (wf_fib_parts _ _ Ha) as (Hsa & H0a & Hna).
+  destruct (fiadd_scalar_spec sa a k 0 Hsa) as (H1 & _ & H3).
+  apply wf_fib_intro.
+  - exact H1.
+  - intros x Hx. destruct (H3 x Hx) as [H|H]; [lia|auto].
+  - intros n E. destruct (Hna n E) as [Hn Hlt]. split; [exact Hn|].
+    intros x Hx. destruct (H3 x Hx) as [H|H]; [subst sa; cbn [eff_shape] in H; lia|auto].
+Qed.
+
+Lemma wf_fib_fimul_scalar sa a k : wf_fib sa a = true -> wf_fib sa (fimul_scalar a k) = true.
+Proof.
+  intros Ha. destruct (wf_fib_parts _ _ Ha) as (Hsa & H0a & Hna).
+  apply wf_fib_intro.
+  - unfold sortedP. rewrite fimul_scalar_coords. exact Hsa.
+  - intros x Hx. rewrite fimul_scalar_coords in Hx. auto.
+  - intros n E. destruct (Hna n E) as [Hn Hlt]. split; [exact Hn|].
+    intros x Hx. rewrite fimul_scalar_coords in Hx. auto.
+Qed.
+
+(* a well-formed r whose coordinates come from a or c lies in the universe of (a, c) *)
+Lemma fib_ok_of_wf sa a sc c r :
+  wf_fib sa a = true -> wf_fib sc c = true -> sortedP r ->
+  (forall x, In x (coordsP r) -> In x (coordsP a) \/ In x (coordsP c) \/ 0 <= x < eff_shape sa a) ->
+  fib_ok (universe sa a sc c) r = true.
+Proof.
+  intros Ha Hc Hs Hin. apply fib_ok_intro; [exact Hs|].
+  intros x Hx. destruct (Hin x Hx) as [H|[H|H]].
+  - exact (in_a_bound sa a sc c Ha x H).
+  - exact (in_b_bound sa a sc c Hc x H).
+  - pose proof (eff_a_bound sa a sc c). lia.
+Qed.
+
+Lemma forallb_range_intro N (P : Z -> bool) : (forall x, P x = true) -> forallb P (zrange N) = true.
+Proof. intros H. apply forallb_forall. intros x _. apply H. Qed.
+
+Lemma outside_shape_zero sa a x : wf_fib sa a = true -> in_shape sa a x = false -> getz x a = 0.
+Proof.
+  intros Ha E. pose proof (wf_fib_inv _ _ Ha) as HH. destruct HH as (_ & Hb & _).
+  apply getz_notin. intros Hin. specialize (Hb x Hin). unfold in_shape in E.
+  apply andb_false_iff in E. destruct E as [E|E]; [apply Z.leb_gt in E|apply Z.ltb_ge in E]; lia.
+Qed.
+
+Lemma step_ok_model sh acc st :
+  wf_fib sh (af_elems acc) = true -> af_shape acc = sh -> step_wf sh st = true ->
+  step_ok sh st (af_elems acc) (af_elems (chain_step acc st)) = true
+  /\ wf_fib sh (af_elems (chain_step acc st)) = true
+  /\ af_shape (chain_step acc st) = sh.
+Proof.
+  intros Ha Hsh Hst. destruct (wf_fib_parts _ _ Ha) as (Hsa & _ & _).
+  assert (Hnil : wf_fib None [] = true) by reflexivity.
+  destruct st as [c|c|k|k|c|c|k|k]; cbn [step_wf] in Hst;
+    cbn [chain_step st_add_fiber st_mul_fiber st_add_scalar st_mul_scalar st_iadd_fiber st_imul_fiber
+         st_iadd_scalar st_imul_scalar af_elems af_shape];
+    try (apply andb_true_iff in Hst; destruct Hst as [Hc Hw]; unfold wf_afib in Hc;
+         destruct (wf_fib_parts _ _ Hc) as (Hsc & _ & _));
+    rewrite ?Hsh; unfold step_ok; cbn [step_universe].
+  - (* acc + c *)
+    pose proof (wf_fib_fadd _ _ _ _ Ha Hc Hw) as Hwf. rewrite Hwf. cbn [andb].
+    split; [|split; reflexivity].
+    apply pointwise_intro.
+    + apply (fib_ok_of_wf sh (af_elems acc) (af_shape c) (af_elems c)); [assumption|assumption|apply fadd_sorted; assumption|].
+      intros x Hx. apply fadd_In in Hx. destruct Hx as [Hx|Hx]; apply coordsP_nonempty_incl in Hx; auto.
+    + intros x _. unfold stored_nz. rewrite orb_true_iff, !memb_In. apply fadd_In.
+    + intros x _. cbn [step_val]. apply fadd_getz; assumption.
+  - (* acc * c *)
+    pose proof (wf_fib_fmul _ _ _ _ Ha Hc) as Hwf. rewrite Hwf. cbn [andb].
+    split; [|split; reflexivity].
+    apply pointwise_intro.
+    + apply (fib_ok_of_wf sh (af_elems acc) (af_shape c) (af_elems c)); [assumption|assumption|apply fmul_sorted; assumption|].
+      intros x Hx. apply fmul_In in Hx; [|assumption|assumption]. destruct Hx as [Hx _].
+      apply coordsP_nonempty_incl in Hx. auto.
+    + intros x _. unfold stored_nz. rewrite andb_true_iff, !memb_In. apply fmul_In; assumption.
+    + intros x _. cbn [step_val]. apply fmul_getz; assumption.
+  - (* acc + k *)
+    pose proof (wf_fib_fadd_scalar _ _ k Ha) as Hwf. rewrite Hwf. cbn [andb].
+    split; [|split; reflexivity].
+    apply pointwise_intro.
+    + apply (fib_ok_of_wf sh (af_elems acc) None []); [assumption|exact Hnil| |].
+      * unfold sortedP. rewrite fadd_scalar_coords. apply zrange_sorted.
+      * intros x Hx. rewrite fadd_scalar_coords in Hx. apply zrange_In in Hx. auto.
+    + intros x _. rewrite fadd_scalar_coords, zrange_In. unfold in_shape.
+      rewrite andb_true_iff, Z.leb_le, Z.ltb_lt. tauto.
+    + intros x _. cbn [step_val]. unfold in_shape. apply fadd_scalar_getz.
+  - (* acc * k *)
+    pose proof (wf_fib_fmul_scalar _ _ k Ha) as Hwf. rewrite Hwf. cbn [andb].
+    split; [|split; reflexivity].
+    apply pointwise_intro.
+    + apply (fib_ok_of_wf sh (af_elems acc) None []); [assumption|exact Hnil| |].
+      * unfold sortedP. rewrite fmul_scalar_coords. apply sortedP_nonempty. exact Hsa.
+      * intros x Hx. rewrite fmul_scalar_coords in Hx. apply coordsP_nonempty_incl in Hx. auto.
+    + intros x _. unfold stored_nz. rewrite memb_In, fmul_scalar_coords. tauto.
+    + intros x _. cbn [step_val]. apply fmul_scalar_getz. exact Hsa.
+  - (* acc += c *)
+    pose proof (wf_fib_fiadd _ _ _ _ Ha Hc Hw) as Hwf. rewrite Hwf. cbn [andb].
+    split; [|split; reflexivity].
+    apply andb_true_iff. split.
+    + apply (fib_ok_of_wf sh (af_elems acc) (af_shape c) (af_elems c)); [assumption|assumption|apply fiadd_sorted; assumption|].
+      intros x Hx. apply fiadd_incl in Hx. tauto.
+    + apply forallb_range_intro. intros x. apply Z.eqb_eq. cbn [step_val]. apply fiadd_getz; assumption.
+  - (* acc *= c *)
+    pose proof (wf_fib_fimul _ _ (af_elems c) Ha) as Hwf. rewrite Hwf. cbn [andb].
+    split; [|split; reflexivity].
+    apply andb_true_iff. split.
+    + apply (fib_ok_of_wf sh (af_elems acc) (af_shape c) (af_elems c)); [assumption|assumption| |].
+      * unfold sortedP. rewrite fimul_coords. exact Hsa.
+      * intros x Hx. rewrite fimul_coords in Hx. auto.
+    + apply forallb_range_intro. intros x. apply Z.eqb_eq. cbn [step_val]. apply fimul_getz.
+  - (* acc += k *)
+    pose proof (wf_fib_fiadd_scalar _ _ k Ha) as Hwf. rewrite Hwf. cbn [andb].
+    split; [|split; reflexivity].
+    destruct (fiadd_scalar_spec sh (af_elems acc) k 0 Hsa) as (H1 & _ & H3).
+    apply andb_true_iff. split.
+    + apply (fib_ok_of_wf sh (af_elems acc) None []); [assumption|exact Hnil|exact H1|].
+      intros x Hx. destruct (H3 x Hx); auto.
+    + apply forallb_range_intro. intros x. apply Z.eqb_eq. cbn [step_val].
+      destruct (fiadd_scalar_spec sh (af_elems acc) k x Hsa) as (_ & H2 & _). rewrite H2.
+      unfold in_shape. destruct ((0 <=? x) && (x <? eff_shape sh (af_elems acc))) eqn:E; [lia|].
+      apply (outside_shape_zero sh); [exact Ha|exact E].
+  - (* acc *= k *)
+    pose proof (wf_fib_fimul_scalar _ _ k Ha) as Hwf. rewrite Hwf. cbn [andb].
+    split; [|split; reflexivity].
+    apply andb_true_iff. split.
+    + apply (fib_ok_of_wf sh (af_elems acc) None []); [assumption|exact Hnil| |].
+      * unfold sortedP. rewrite fimul_scalar_coords. exact Hsa.
+      * intros x Hx. rewrite fimul_scalar_coords in Hx. auto.
+    + apply forallb_range_intro. intros x. apply Z.eqb_eq. cbn [step_val].
+      rewrite fimul_scalar_getz. apply Z.mul_comm.
+Qed.
+
+Lemma steps_ok_model sh : forall steps acc,
+  wf_fib sh (af_elems acc) = true -> af_shape acc = sh -> forallb (step_wf sh) steps = true ->
+  steps_ok sh (af_elems acc) steps (map (fun f => V_fib (af_elems f)) (chain_trace acc steps))
+  = Some (af_elems (chain acc steps))
+  /\ wf_fib sh (af_elems (chain acc steps)) = true /\ af_shape (chain acc steps) = sh.
+Proof.
+  induction steps as [|st steps IH]; intros acc Ha Hsh Hw.
+  - cbn. auto.
+  - cbn [forallb] in Hw. apply andb_true_iff in Hw. destruct Hw as [Hst Hw].
+    destruct (step_ok_model sh acc st Ha Hsh Hst) as (Hok & Hwf' & Hsh').
+    cbn [chain_trace map steps_ok]. rewrite unV_V_fib, Hok.
+    unfold chain. cbn [fold_left]. exact (IH (chain_step acc st) Hwf' Hsh' Hw).
+Qed.
+
+Lemma chain_model_spec a0 steps mul withfiber b s :
+  wf_afib a0 = true -> wf_afib b = true -> forallb (step_wf (af_shape a0)) steps = true ->
+  chain_spec a0 steps mul withfiber b s (c11_model (CFibC a0 steps mul withfiber b s)) = true.
+Proof.
+  intros Ha Hb Hw. cbn [c11_model]. unfold chain_spec, Vl.
+  destruct (steps_ok_model (af_shape a0) steps a0 Ha eq_refl Hw) as (H1 & H2 & H3).
+  rewrite H1, H3. apply fib_model_spec; [exact H2|exact Hb].
+Qed.
+
 Lemma c11_model_holds c : holds c11_checker c (model c11_checker c) = true.
 Proof.
   cbn [holds model c11_checker]. unfold c11_holds.
   destruct (c11_wf c) eqn:Hwf; [|reflexivity].
-  destruct c as [i o kl kr x y|mul withfiber sa a sb b s|pre mul withfiber a b s].
+  destruct c as [i o kl kr x y|mul withfiber sa a sb b s|pre mul withfiber a b s|a0 steps mul withfiber b s].
   - cbn [c11_model]. cbn [c11_wf] in Hwf.
     apply andb_true_iff in Hwf. destruct Hwf as [Hwf _].
     apply andb_true_iff in Hwf. destruct Hwf as [Hwf _].
@@ -338,6 +544,9 @@ Proof.
     apply andb_true_iff in Hwf. destruct Hwf as [Hwa Hwb].
     apply hist_model_spec; [exact Hwa|exact Hwb|].
     destruct pre as [[m c]|]; [|exact I]. apply andb_true_iff in Hp. exact Hp.
+  - cbn [c11_wf] in Hwf. apply andb_true_iff in Hwf. destruct Hwf as [Hwf Hst].
+    apply andb_true_iff in Hwf. destruct Hwf as [Hwa Hwb].
+    apply chain_model_spec; assumption.
 Qed.
 
 (* the oracle is not vacuous: well-formed cases exist in every class *)
@@ -466,4 +675,60 @@ Lemma c11_hist_examples :
   /\ get_active (hist_step (Some (false, c)) a) = (0, 2)
   /\ af_elems (st_add_scalar (hist_step (Some (false, c)) a) 2)
      = [(0, 5); (1, 14); (2, 2); (3, 2); (4, 2); (5, 5)].
+Proof. vm_compute. repeat split. Qed.
+
+(* ---------------------------------------------------------------- round 3 statements *)
+Lemma chain_step_val sh acc st :
+  wf_fib sh (af_elems acc) = true -> af_shape acc = sh -> step_wf sh st = true ->
+  wf_fib sh (af_elems (chain_step acc st)) = true
+  /\ af_shape (chain_step acc st) = sh
+  /\ forall x, getz x (af_elems (chain_step acc st)) = step_val sh (af_elems acc) st x.
+Proof.
+  intros Ha Hsh Hst. destruct (step_ok_model sh acc st Ha Hsh Hst) as (_ & Hwf & Hs).
+  split; [exact Hwf|]. split; [exact Hs|]. intros x.
+  destruct (wf_fib_parts _ _ Ha) as (Hsa & _ & _).
+  destruct st as [c|c|k|k|c|c|k|k]; cbn [step_wf] in Hst;
+    cbn [chain_step st_add_fiber st_mul_fiber st_add_scalar st_mul_scalar st_iadd_fiber st_imul_fiber
+         st_iadd_scalar st_imul_scalar af_elems af_shape step_val];
+    try (apply andb_true_iff in Hst; destruct Hst as [Hc Hw]; unfold wf_afib in Hc;
+         destruct (wf_fib_parts _ _ Hc) as (Hsc & _ & _)); rewrite ?Hsh.
+  - apply fadd_getz; assumption.
+  - apply fmul_getz; assumption.
+  - unfold in_shape. apply fadd_scalar_getz.
+  - apply fmul_scalar_getz; assumption.
+  - apply fiadd_getz; assumption.
+  - apply fimul_getz.
+  - destruct (fiadd_scalar_spec sh (af_elems acc) k x Hsa) as (_ & H2 & _). rewrite H2.
+    unfold in_shape. destruct ((0 <=? x) && (x <? eff_shape sh (af_elems acc))) eqn:E; [lia|].
+    apply (outside_shape_zero sh); [exact Ha|exact E].
+  - rewrite fimul_scalar_getz. apply Z.mul_comm.
+Qed.
+
+Lemma fiber_chain : forall sh steps acc k,
+  wf_fib sh (af_elems acc) = true -> af_shape acc = sh -> forallb (step_wf sh) steps = true ->
+  let r := chain acc steps in
+  wf_fib sh (af_elems r) = true /\ af_shape r = sh
+  /\ coordsP (af_elems (st_add_scalar r k)) = zrange (eff_shape sh (af_elems r))
+  /\ (forall x, getz x (af_elems (st_add_scalar r k))
+                = if (0 <=? x) && (x <? eff_shape sh (af_elems r)) then k + getz x (af_elems r) else 0)
+  /\ (forall x, getz x (af_elems (st_iadd_scalar r k)) = getz x (af_elems (st_add_scalar r k)))
+  /\ (forall x, getz x (af_elems (st_imul_scalar r k)) = getz x (af_elems (st_mul_scalar r k))).
+Proof.
+  intros sh steps acc k Ha Hsh Hw r.
+  destruct (steps_ok_model sh steps acc Ha Hsh Hw) as (_ & Hwf & Hs). fold r in Hwf, Hs.
+  split; [exact Hwf|]. split; [exact Hs|].
+  unfold st_add_scalar, st_iadd_scalar, st_imul_scalar, st_mul_scalar. cbn [af_elems]. rewrite Hs.
+  split; [apply fadd_scalar_coords|]. split; [intros x; apply fadd_scalar_getz|].
+  destruct (inplace_agree sh (af_elems r) [] k Hwf (SSorted_nil _)) as (_ & _ & H3 & H4).
+  split; [apply H3|apply H4].
+Qed.
+
+Lemma c11_chain_examples :
+  let f := Build_afib None None [(0, 1); (1, 2)] in
+  let g := Build_afib None None [(1, 10); (3, 20); (4, 30)] in
+  c11_wf (CFibC f [SAddF g] false false (Build_afib None None []) 2) = true
+  /\ af_shape (chain f [SAddF g]) = None
+  /\ af_elems (st_add_scalar (chain f [SAddF g]) 2) = [(0, 3); (1, 14); (2, 2); (3, 22); (4, 32)]
+  /\ af_elems (st_iadd_scalar (chain (Build_afib None None []) [SMulS 2; SIAddF g]) 2)
+     = [(0, 2); (1, 12); (2, 2); (3, 22); (4, 32)].
 Proof. vm_compute. repeat split. Qed.
